@@ -232,7 +232,8 @@ Section CGproofs.
   Proof.
     intros H1 H2 H3 H4. assert (E : rPr / curv * curv = rPr) by (field; lra).
     assert (t * curv < rPr) by (rewrite <- E; apply Rmult_lt_compat_r; assumption).
-    assert (t * (t * curv) <= t * rPr) by (apply Rmult_le_compat_l; lra). lra.
+    assert (t * (t * curv) <= t * rPr) by (apply Rmult_le_compat_l; lra).
+    assert (0 <= t * rPr) by (apply Rmult_le_pos; lra). lra.
   Qed.
   Lemma phi_full rPr curv : 0 < rPr -> 0 < curv ->
     - (rPr / curv) * rPr + / 2 * (rPr / curv * (rPr / curv)) * curv = - / 2 * (rPr * rPr / curv).
@@ -361,10 +362,17 @@ Section CGproofs.
         (* (tt - t) * (-rPr + (tt + t)/2 curv) <= 0 *)
         assert ((tt - t) * (- rPr0 + / 2 * (tt + t) * curv) <= 0) by nra. lra.
       - rewrite !Hmq. set (curv := d0 ⋅ Hf d0) in *.
-        rewrite (phi_full_eq rPr0 curv t) by assumption. assert (0 <= (t - rPr0 / curv) * (t - rPr0 / curv)) by nra. nra.
+        pose proof (phi_full_eq rPr0 curv t HrPr Hc) as Eq.
+        pose proof (Rle_0_sqr (t - rPr0 / curv)) as Hsq. unfold Rsqr in Hsq.
+        assert (0 <= / 2 * curv) by lra.
+        assert (0 <= / 2 * curv * ((t - rPr0 / curv) * (t - rPr0 / curv))) by (apply Rmult_le_pos; assumption).
+        lra.
       - destruct (cg_loop_post f 1%nat d0 _ _ _ _ _ _ _ I') as (_ & P2 & _).
         eapply Rle_trans; [exact P2|]. rewrite !Hmq. set (curv := d0 ⋅ Hf d0) in *.
-        rewrite (phi_full_eq rPr0 curv t) by assumption. assert (0 <= (t - rPr0 / curv) * (t - rPr0 / curv)) by nra. nra.
+        pose proof (phi_full_eq rPr0 curv t HrPr Hc) as Eq.
+        pose proof (Rle_0_sqr (t - rPr0 / curv)) as Hsq. unfold Rsqr in Hsq.
+        assert (0 <= / 2 * curv) by lra.
+        assert (0 <= / 2 * curv * ((t - rPr0 / curv) * (t - rPr0 / curv))) by (apply Rmult_le_pos; assumption). lra.
     Qed.
   End Start.
 End CGproofs.
